@@ -26,6 +26,36 @@ from statemachine.factory import StateMachineMetaclass  # noqa: E402
 _depth = contextvars.ContextVar("vdepth", default=0)
 
 
+import enum
+
+
+class VEnum(enum.Enum):
+    A = "a"
+    B = "b"
+    C = "c"
+    D = "d"
+    E = "e"
+    F = "f"
+
+
+def decode_value(v):
+    """JSON-able tagged value -> Python value ({"t": "int", "v": 0}, {"t": "enum", "v": "A"}, ...)."""
+    if isinstance(v, dict) and "t" in v:
+        t = v["t"]
+        if t == "int":
+            return int(v["v"])
+        if t == "str":
+            return str(v["v"])
+        if t == "enum":
+            return VEnum[v["v"]]
+        if t == "tuple":
+            return tuple(v["v"])
+        if t == "bool":
+            return bool(v["v"])
+        raise ValueError(t)
+    return v
+
+
 class Boom(Exception):
     def __init__(self, c):
         super().__init__(f"boom {c}")
@@ -106,7 +136,7 @@ class Recorder:
             v = getattr(machine.model, machine.state_field, None)
             return "none" if v is None else "invalid"
 
-    def begin(self, c, machine, event, source, target, state):
+    def begin(self, c, machine, event, source, target, state, owner=None):
         self.ninv += 1
         try:
             self.loops.add(asyncio.get_running_loop())
@@ -131,6 +161,7 @@ class Recorder:
                 "evn": str(event),
                 "nest": _depth.get(),
                 "pyd": pyd,
+                "pslot": getattr(owner, "__dict__", {}).get("_vslot", 0) if owner is not None else 0,
             }
         )
         return self.ninv
@@ -158,8 +189,8 @@ def make_callback(rt, c, cb, slot_getter=None):
     token = cb.get("ret", "none")
     always_raises = cb.get("raises", False)
 
-    def pre(machine, event, source, target, state):
-        n = rt.begin(c, machine, event, source, target, state)
+    def pre(machine, event, source, target, state, owner=None):
+        n = rt.begin(c, machine, event, source, target, state, owner)
         rt.occ[c] = rt.occ.get(c, 0) + 1
         return n
 
@@ -192,8 +223,8 @@ def make_callback(rt, c, cb, slot_getter=None):
 
     if not coro:
 
-        def body(machine, event, source, target, state):
-            n = pre(machine, event, source, target, state)
+        def body(machine, event, source, target, state, owner=None):
+            n = pre(machine, event, source, target, state, owner)
             tok = _depth.set(_depth.get() + 1)
             try:
                 sends, planned = sends_of()
@@ -215,15 +246,15 @@ def make_callback(rt, c, cb, slot_getter=None):
             return finish(n, machine)
 
         def method(self, *, event=None, source=None, target=None, state=None, machine=None):
-            return body(machine, event, source, target, state)
+            return body(machine, event, source, target, state, self)
 
         def function(*, event=None, source=None, target=None, state=None, machine=None):
             return body(machine, event, source, target, state)
 
     else:
 
-        async def abody(machine, event, source, target, state):
-            n = pre(machine, event, source, target, state)
+        async def abody(machine, event, source, target, state, owner=None):
+            n = pre(machine, event, source, target, state, owner)
             tok = _depth.set(_depth.get() + 1)
             try:
                 for _ in range(yields):
@@ -243,7 +274,7 @@ def make_callback(rt, c, cb, slot_getter=None):
             return finish(n, machine)
 
         async def method(self, *, event=None, source=None, target=None, state=None, machine=None):
-            return await abody(machine, event, source, target, state)
+            return await abody(machine, event, source, target, state, self)
 
         async def function(*, event=None, source=None, target=None, state=None, machine=None):
             return await abody(machine, event, source, target, state)
@@ -374,7 +405,9 @@ class Built:
                 if refs:
                     kw[g] = refs if len(refs) > 1 else refs[0]
             if "value" in s and s["value"] is not None:
-                kw["value"] = s["value"]
+                kw["value"] = decode_value(s["value"])
+            if s.get("name"):
+                kw["name"] = s["name"]
             st = State(initial=s["initial"], final=s["final"], **kw)
             states[s["id"]] = st
             attrs[s["id"]] = st
@@ -434,13 +467,36 @@ class Built:
             self.cls = StateMachineMetaclass(name, (StateMachine,), attrs, **kwargs)
         self.warnings = [str(x.message) for x in w]
 
-    def make_provider(self, prov, state_field="state", stored=None, kind="attr"):
-        """A model or listener object carrying the methods of provider `prov`."""
+    def make_provider(self, prov, state_field="state", stored=None, kind="attr", slot=0):
+        """A model or listener object carrying the methods of provider `prov`.
+        Model kinds: attr (plain attribute), property (property-backed storage), classattr
+        (class-level default, instance attribute only after the first write), falsy_len / falsy_bool
+        (objects that are falsy)."""
         methods = dict(self.provider_methods.get(prov, {}))
+        if prov == "model":
+            if kind == "property":
+                def _get(self_):
+                    return self_.__dict__.get("_stored")
+
+                def _set(self_, v):
+                    self_.__dict__["_stored"] = v
+                    self_.__dict__["_writes"] = self_.__dict__.get("_writes", 0) + 1
+                methods[state_field] = property(_get, _set)
+            elif kind == "classattr":
+                methods[state_field] = None
+            elif kind == "falsy_len":
+                methods["__len__"] = lambda self_: 0
+            elif kind == "falsy_bool":
+                methods["__bool__"] = lambda self_: False
         cls = type(f"P_{prov}", (), methods)
         obj = cls()
+        obj.__dict__["_vslot"] = slot
         if prov == "model":
-            setattr(obj, state_field, stored)
+            if kind == "classattr":
+                if stored is not None:
+                    setattr(obj, state_field, stored)
+            else:
+                setattr(obj, state_field, stored)
         return obj
 
 
@@ -457,6 +513,7 @@ class Runner:
         self.models = {}    # slot -> model
         self.cls_of = {}    # slot -> class index (1-based)
         self.listeners = {}  # slot -> {prov: obj}
+        self.user_models = {}  # slot -> the model object the user supplied (identity check)
         self.inv_tokens = {}
 
     # -- token <-> value ------------------------------------------------------------------
@@ -466,7 +523,9 @@ class Runner:
             return None
         for s in d["states"]:
             if s["id"] == token:
-                return s.get("value", None) if s.get("value", None) is not None else s["id"]
+                return decode_value(s["value"]) if s.get("value", None) is not None else s["id"]
+        if token in self.scn.get("values", {}):
+            return decode_value(self.scn["values"][token])
         return token  # invalid value token, stored as is
 
     def token_of(self, k, value):
@@ -474,9 +533,13 @@ class Runner:
         if value is None:
             return ""
         for s in d["states"]:
-            v = s.get("value", None) if s.get("value", None) is not None else s["id"]
+            v = decode_value(s["value"]) if s.get("value", None) is not None else s["id"]
             if type(v) is type(value) and v == value:
                 return s["id"]
+        for tok, enc in self.scn.get("values", {}).items():
+            v = decode_value(enc)
+            if type(v) is type(value) and v == value:
+                return tok
         return value if isinstance(value, str) else "!" + repr(value)
 
     def proj(self):
@@ -484,7 +547,8 @@ class Runner:
         for j in range(1, self.ni + 1):
             sm = self.sm.get(j)
             if sm is None:
-                out.append({"cur": "", "state": "none", "allowed": [], "active": []})
+                out.append({"cur": "", "state": "none", "allowed": [], "active": [], "events": [],
+                            "modelok": True})
                 continue
             k = self.cls_of[j]
             raw = getattr(sm.model, sm.state_field, None)
@@ -498,7 +562,10 @@ class Runner:
                 allowed, active = [], []
             if sm.current_state_value is not raw and sm.current_state_value != raw:
                 state = "mismatch"
-            out.append({"cur": cur, "state": state, "allowed": allowed, "active": active})
+            um = self.user_models.get(j)
+            out.append({"cur": cur, "state": state, "allowed": allowed, "active": active,
+                        "events": [str(e) for e in sm.events],
+                        "modelok": True if um is None else (sm.model is um)})
         return out
 
     def exc_rec(self, k, e):
@@ -543,12 +610,15 @@ class Runner:
         if i in self.models and step.get("reuse_model", False):
             model = self.models[i]
             stored = self.token_of(self.cls_of[i], getattr(model, state_field, None))
-        elif "model" in provs or step.get("model_kind", "default") != "default":
-            model = b.make_provider("model", state_field, self.value_of(k, stored))
+        elif "model" in provs or step.get("model_kind", "default") != "default" or stored != "":
+            model = b.make_provider("model", state_field, self.value_of(k, stored),
+                                    kind=step.get("model_kind", "attr"), slot=i)
         else:
             model = None
             stored = ""
-        lst = {p: b.make_provider(p) for p in provs if p not in ("sm", "model")}
+        self.user_models[i] = model
+        step["stored"] = stored
+        lst = {p: b.make_provider(p, slot=i) for p in provs if p not in ("sm", "model")}
         self.rt.emit({"e": "new", "i": i, "cls": k, "opt": opt, "stored": stored,
                       "provs": provs, "gv": gv})
         kw = {}
@@ -616,7 +686,7 @@ class Runner:
                 r = None
             elif api == "add_listener":
                 p = step["v"]
-                obj = self.listeners[i].get(p) or self.built[k - 1].make_provider(p)
+                obj = self.listeners[i].get(p) or self.built[k - 1].make_provider(p, slot=i)
                 self.listeners[i][p] = obj
                 sm.add_listener(obj)
                 r = None
@@ -627,6 +697,9 @@ class Runner:
                 else:
                     clone = pickle.loads(pickle.dumps(sm))
                 self.sm[j] = clone
+                self.user_models[j] = None
+                self.clone_of = getattr(self, "clone_of", {})
+                self.clone_of[j] = i
                 self.models[j] = clone.model
                 self.cls_of[j] = k
                 self.listeners[j] = {}
